@@ -6,6 +6,7 @@ from ..core import (AnalysisError, dotted, unparse, calls_in, call_name,
                     walk_no_defs, parent, ancestors, ClassInfo, FuncInfo)
 from ..flow import guards_at, flatten_guards
 from ..mutate import Mutant, in_func
+from .. import guardspec
 
 ID = 'C16'
 EXPLANATION = (
@@ -362,12 +363,72 @@ def rule_r5(prog, res):
                     'arguments to their __orig__ class')
 
 
+# ------------------------------------------------------------------- R6
+def rule_r6(prog, res):
+    res.rule('R6', 'the interface registers the subclasses of every complex '
+             'class it adds, customized variants included')
+    f = prog.cls('spyne.interface._base:Interface').methods.get('add_class')
+    if f is None:
+        raise AnalysisError('Interface.add_class', 'not found')
+    loops = [n for n in walk_no_defs(f.node) if isinstance(n, ast.For) and
+             '_subclasses' in unparse(n.iter)]
+    res.floor('R6', 'subclass registration loops in add_class', len(loops), 1)
+    for lp in loops:
+        guardspec.check(
+            res, 'R6', f, lp, 'registration of the declared subclasses',
+            allowed=[('_.get_type_name() is _.Empty', False),
+                     ('_ in _.classes', False), ('_ is None', False),
+                     ('_.has_class(_)', False),
+                     ('issubclass(_, ComplexModelBase)', True),
+                     ('_.Attributes._subclasses is None', False)],
+            key='Interface.add_class|subclasses')
+
+
+# ------------------------------------------------------------------- R7
+def rule_r7(prog, res):
+    res.rule('R7', 'the wrapper key is compared with the declared class and '
+             'with its subclasses through the same naming method')
+    f = prog.cls('spyne.protocol.dictdoc.hier:HierDictDocument').methods.get(
+        '_doc_to_object')
+    if f is None:
+        raise AnalysisError('HierDictDocument._doc_to_object', 'not found')
+    forms = []
+    for n in walk_no_defs(f.node):
+        if isinstance(n, ast.Compare) and len(n.ops) == 1 and isinstance(
+                n.ops[0], (ast.Eq, ast.NotEq)):
+            sides = [n.left, n.comparators[0]]
+            if any(isinstance(x, ast.Name) and x.id == 'class_name'
+                   for x in sides):
+                other = [x for x in sides if not (
+                    isinstance(x, ast.Name) and x.id == 'class_name')][0]
+                nm = call_name(other) if isinstance(other, ast.Call) else \
+                    unparse(other)
+                forms.append((n, nm))
+    res.floor('R7', 'comparisons of the wrapper key', len(forms), 2)
+    names = sorted({nm for _, nm in forms})
+    ok = len(names) <= 1
+    res.ob('R7', f.where, '_doc_to_object compares the wrapper key through '
+           '%s' % names, 'ok' if ok else 'VIOLATED', nontrivial=True)
+    if not ok:
+        res.finding('R7', 'HierDictDocument._doc_to_object|wrapper-naming|%s'
+                    % names, '%s:%d' % (f.module.relpath, forms[0][0].lineno),
+                    'the wrapper key is compared with the declared class '
+                    'through %s and with the subclasses through %s: for a '
+                    'protocol whose naming methods differ in kind or '
+                    'spelling (MessagePack: bytes vs str) a document naming '
+                    'the declared class itself is not recognised and the '
+                    'subclass search runs (or fails) instead' % (
+                        forms[0][1], [nm for _, nm in forms[1:]]))
+
+
 def run(prog, res, tier):
     res.run_rule(rule_r1, prog, res)
     res.run_rule(rule_r2, prog, res)
     res.run_rule(rule_r3, prog, res)
     res.run_rule(rule_r4, prog, res)
     res.run_rule(rule_r5, prog, res)
+    res.run_rule(rule_r6, prog, res)
+    res.run_rule(rule_r7, prog, res)
 
 
 _C = 'spyne/model/complex.py'
@@ -377,6 +438,20 @@ _I = 'spyne/interface/_base.py'
 _H = 'spyne/protocol/dictdoc/hier.py'
 
 MUTANTS = [
+    Mutant('subclasses-only-for-originals', 'R6', 'fire', _I,
+           in_func('Interface.add_class',
+                   "if cls.Attributes._subclasses is not None:",
+                   "if cls.__orig__ is None and cls.Attributes._subclasses "
+                   "is not None:"), 'extra-guard'),
+    Mutant('subclasses-none-test-rewritten', 'R6', 'benign', _I,
+           in_func('Interface.add_class',
+                   "if cls.Attributes._subclasses is not None:",
+                   "if not (cls.Attributes._subclasses is None):"), None),
+    Mutant('wrapper-key-two-namings', 'R7', 'fire', _H,
+           in_func('HierDictDocument._doc_to_object',
+                   "if cls.get_type_name() != class_name and",
+                   "if self.get_class_name(cls) != class_name and"),
+           'wrapper-naming'),
     Mutant('own-fields-first', 'R1', 'fire', _C,
            in_func('_get_flat_type_info',
                    r"    parent = getattr\(cls, '__extends__', None\)\n"
